@@ -27,6 +27,10 @@ for k,v in m.items(): print(k, re.match(r'(C\d\d)',v).group(1))
 PY
 while read f p; do run "$PWD/seeded/reverts/revert_$f.diff" $p "revert_$f"; done < /tmp/seedall_reverts.$$
 rm -f /tmp/seedall_reverts.$$
-# the unchanged worktree must be clean for one property as a sanity check of the VERIF_REPO route
-out=$(VERIF_REPO=$WT python3 tools/vcheck.py C15 quick 2>&1); [ $? -eq 0 ] || { echo "UNCHANGED worktree reported: $out" | tail -2; fail=1; }
+# the unchanged worktree must be clean for every registered check (a monitor or token added for a seed must not raise
+# an alarm on the original code)
+for id in $(python3 -c "import json; print(' '.join(c['property_id'] for c in json.load(open('MANIFEST.json'))['checks']))"); do
+  out=$(VERIF_REPO=$WT python3 tools/vcheck.py $id $TIER 2>&1); rc=$?
+  if [ $rc -ne 0 ]; then echo "MISSED  unchanged-tree-alarm by $id (exit=$rc) $(echo "$out" | grep VIOLATION | head -1)" | tee -a $LOG; fail=1; else echo "clean   unchanged tree, $id" ; fi
+done
 echo "$(date -u +%FT%TZ) tier=$TIER: $(grep -c "^caught" $LOG) caught, $(grep -c "^MISSED" $LOG) missed" > seeded/REGRESSION.txt; grep "^MISSED" $LOG >> seeded/REGRESSION.txt; exit $fail
